@@ -963,6 +963,15 @@ def _index_many_to_one(
         return constructor(array, name=name, index_constructors=index_constructors) #type: ignore
     return constructor(array, name=name) #type: ignore
 
+def index_to_hashable(index: 'IndexBase') -> tp.Tuple[tp.Hashable, ...]:
+    '''
+    The labels of an index as a tuple of Python objects (label tuples for hierarchical indices), for hashing: datetime64 labels are given as the date / datetime objects they compare equal to.
+    '''
+    labels = index.values.tolist()
+    if index.depth == 1:
+        return tuple(labels)
+    return tuple(tuple(label) for label in labels)
+
 def index_many_concat(
         indices: tp.Iterable[IndexBase],
         cls_default: tp.Type[IndexBase],
